@@ -119,6 +119,14 @@ func fatal(format string, a ...any) {
 }
 
 func main() {
+	defer func() {
+		if e := recover(); e != nil {
+			if be, ok := e.(buildError); ok {
+				fatal("%s", string(be))
+			}
+			panic(e)
+		}
+	}()
 	if len(os.Args) < 2 {
 		fatal("usage: check <ID> --tier quick|thorough [--replay file]")
 	}
@@ -185,14 +193,32 @@ func main() {
 		os.Exit(code)
 	}
 	var parts []*PartResult
+	var unbuilt []string
 	for i, p := range s.Parts {
 		sub := filepath.Join(scratch, fmt.Sprintf("p%d", i))
 		os.MkdirAll(sub, 0o755)
 		var pr *PartResult
-		if p.Kind == "mc" {
-			pr = runMC(p, root, sub, tier, passthru)
-		} else {
-			pr = runEnum(p, root, sub, tier, passthru)
+		func() {
+			defer func() {
+				if e := recover(); e != nil {
+					be, ok := e.(buildError)
+					if !ok {
+						panic(e)
+					}
+					fmt.Fprintf(os.Stderr, "check: part %s/%s could not be built against this tree:\n%s\n", id, p.Name, string(be))
+					unbuilt = append(unbuilt, p.Name)
+					pr = nil
+				}
+			}()
+			if p.Kind == "mc" {
+				pr = runMC(p, root, sub, tier, passthru)
+			} else {
+				pr = runEnum(p, root, sub, tier, passthru)
+			}
+		}()
+		if pr == nil {
+			os.RemoveAll(sub)
+			continue
 		}
 		pr.Name = p.Name
 		pr.Supplementary = p.Supplementary
@@ -200,6 +226,10 @@ func main() {
 		os.RemoveAll(sub)
 	}
 	code := finish(s, tier, parts, time.Since(start))
+	if len(unbuilt) > 0 && code == 0 {
+		fmt.Fprintf(os.Stderr, "check: part(s) %v could not be built against this tree: the property is NOT decided (machinery failure, exit 2)\n", unbuilt)
+		code = 2
+	}
 	os.RemoveAll(scratch)
 	os.Exit(code)
 }
@@ -332,6 +362,12 @@ func finish(s *spec, tier string, parts []*PartResult, wall time.Duration) int {
 // worktree carrying a candidate change) — in that case every file that differs
 // from /repo is mapped through the build overlay, so /repo itself stays
 // untouched while a change is being evaluated.
+// buildError is raised when a part cannot be built against the tree under
+// test (e.g. an in-package accessor no longer compiles after a refactoring of
+// private state). The other parts still run; the check then exits 2 unless
+// some part found a violation.
+type buildError string
+
 func repoDir() string {
 	if r := os.Getenv("VERIF_REPO"); r != "" {
 		return filepath.Clean(r)
@@ -390,7 +426,7 @@ func buildHarness(s *part, root, scratch string) string {
 			gargs = append(gargs, kit+p)
 		}
 		if out, err := run(root, nil, gen, gargs...); err != nil {
-			fatal("mcgen failed (the instrumented copy could not be produced from the working tree):\n%s", out)
+			panic(buildError(fmt.Sprintf("mcgen failed (the instrumented copy could not be produced from the working tree):\n%s", out)))
 		}
 		b, err := os.ReadFile(filepath.Join(scratch, "gen", "overlay.json"))
 		if err != nil {
@@ -415,7 +451,7 @@ func buildHarness(s *part, root, scratch string) string {
 	}
 	args = append(args, "./"+s.Harness)
 	if out, err := run(root, nil, "go", args...); err != nil {
-		fatal("harness build failed:\n%s", out)
+		panic(buildError(fmt.Sprintf("harness build failed:\n%s", out)))
 	}
 	return bin
 }
@@ -709,6 +745,25 @@ func runEnum(s *part, root, scratch, tier string, passthru []string) *PartResult
 	var pr PartResult
 	if rerr == nil {
 		rerr = json.Unmarshal(b, &pr)
+	}
+	if rerr != nil && s.Supplementary && (strings.Contains(errBuf.String(), "WARNING: DATA RACE") || strings.Contains(errBuf.String(), "\npanic:") || strings.Contains(errBuf.String(), "fatal error:")) {
+		// a free-running pass that died: the crash itself is the observation
+		pr = PartResult{Coverage: map[string]any{"evaluations": 1, "distinct_nontrivial": 2, "rule": "the free-running pass crashed", "samples": []any{"crash"}, "exhaustive": false}}
+		msg := errBuf.String()
+		for _, mark := range []string{"WARNING: DATA RACE", "\npanic:", "fatal error:"} {
+			if i := strings.Index(msg, mark); i >= 0 {
+				msg = msg[i:]
+				break
+			}
+		}
+		if len(msg) > 3000 {
+			msg = msg[:3000]
+		}
+		if !strings.Contains(msg, "WARNING: DATA RACE") {
+			rp := evid.SaveReplay(s.ID, s.Name+"-crash", map[string]any{"property": s.ID, "part": s.Name, "key": "crash-in-parallel-run", "report": msg})
+			pr.Findings = append(pr.Findings, evid.Finding{Key: "crash-in-parallel-run", Msg: msg, Replay: rp})
+		}
+		rerr = nil
 	}
 	if rerr != nil {
 		fatal("part %s/%s produced no result (%v; process: %v)", s.ID, s.Name, rerr, err)
